@@ -39,7 +39,65 @@ FN_TRANS = ("fun c : (affine * list str * list str * glyphset * glyphset * bool)
             "bits (negb all || model_transform_all_eqb m gs gs') (transformed_ok m incl skip gs gs')")
 
 
+def ifilter_section(ctx):
+    """the interpolatable forms of the three component filters, run on a plain list of compatible masters (no designspace, no
+    instantiator) whose nested component offsets DIFFER from master to master: in every master every glyph renders after the
+    filter what it rendered before (each master judged against itself, by the Coq renderer)"""
+    from harness import dsgen
+    from ufo2ft.util import _GlyphSet
+    from ufo2ft.filters.decomposeComponents import DecomposeComponentsIFilter
+    from ufo2ft.filters.decomposeTransformedComponents import DecomposeTransformedComponentsIFilter
+    from ufo2ft.filters.flattenComponents import FlattenComponentsIFilter
+    rng = ctx.subrng("ifilters")
+    pres, flat = ([], []), ([], [])
+    for i in range(ctx.budget(9, 45)):
+        lib = ["ufoLib2", "defcon"][i % 2]
+        which, cls = [("flatten", FlattenComponentsIFilter), ("decompose", DecomposeComponentsIFilter),
+                      ("decompose_transformed", DecomposeTransformedComponentsIFilter)][i % 3]
+        base = dsgen.base_master(rng, anchors=False, max_depth=3)
+        plain = next(g["name"] for g in base["glyphs"] if g["contours"] and not g["components"])
+        one = (Fr(1), Fr(0), Fr(0), Fr(1))
+        inner = one if i % 2 == 0 else (Fr(1, 2), Fr(0), Fr(0), Fr(-1))
+        base["glyphs"].append({"name": "nest.mid", "unicodes": [], "width": Fr(500), "contours": [], "anchors": [],
+                               "components": [(plain, inner + (Fr(40), Fr(10)))]})
+        base["glyphs"].append({"name": "nest.top", "unicodes": [], "width": Fr(500), "contours": [], "anchors": [],
+                               "components": [("nest.mid", one + (Fr(-20), Fr(30))), (plain, one + (Fr(300), Fr(0)))]})
+        base["glyphOrder"] = [g["name"] for g in base["glyphs"]]
+        masters = [base] + [dsgen.perturb(rng, base, k) for k in range(1, 2 + (i // 3) % 2)]
+        fonts = [build_font(m, lib) for m in masters]
+        names = [g["name"] for g in base["glyphs"]]
+        case = {"ifilter": cls.__name__, "lib": lib, "masters": len(masters), "font": jsonable(masters[0]), "last_master": jsonable(masters[-1])}
+        try:
+            gsets = [_GlyphSet.from_layer(f, copy=True) for f in fonts]
+            before = [geom.snapshot_glyphset(g) for g in gsets]
+            modified = cls()(fonts, gsets)
+            after = [geom.snapshot_glyphset(g) for g in gsets]
+        except Exception as e:
+            ctx.spec_failure(case, "%s raised %s: %s\n%s" % (cls.__name__, type(e).__name__, e, traceback.format_exc()[-1200:]))
+            continue
+        ctx.count(); ctx.klass("interpolatable %s on %d masters" % (which, len(masters)))
+        if modified:
+            ctx.nontriv(("ifilter", i, ctx.scale))
+        if "nest.top" not in modified and which != "decompose_transformed":
+            ctx.spec_failure(case, "%s did not report the nested composite 'nest.top' (reported %r)" % (cls.__name__, sorted(modified)))
+        for k, (b, a) in enumerate(zip(before, after)):
+            g0, g1 = geom.g_glyphset(b), geom.g_glyphset(a)
+            if which == "flatten" and not any(g["contours"] and g["components"] for g in b):
+                # (how deep the nesting may stay is judged where no glyph mixes contours and components: the interpolatable
+                # form leaves mixed glyphs alone, and the property is about rendering, not depth)
+                flat[0].append(G.tup(g0, g1, G.b(True))); flat[1].append(dict(case, master=k))
+            else:
+                pres[0].append(G.tup(g0, g1, G.lst([G.s(n) for n in names], "str"))); pres[1].append(dict(case, master=k))
+    for (cases, meta), fn, tag in ((pres, FN_PRES, "IPres"), (flat, FN_FLAT, "IFlat")):
+        vals = ctx.coq_eval(IMPORTS, fn, cases, chunk=6, tag=tag)
+        for v, case in zip(vals, meta):
+            if v is not None and not v & 2:
+                ctx.spec_failure(case, "master %d: the interpolatable filter changed what a glyph renders (Coq render_preserved false), "
+                                       "or left nesting deeper than one level" % case["master"])
+
+
 def explore(ctx):
+    ifilter_section(ctx)
     from ufo2ft.util import _GlyphSet
     from ufo2ft.filters.decomposeComponents import DecomposeComponentsFilter
     from ufo2ft.filters.decomposeTransformedComponents import DecomposeTransformedComponentsFilter
